@@ -175,6 +175,17 @@ def gen_random(rng, prof=None):
                 t["fixed_workers"] = sorted(rng.sample(all_w, min(len(all_w), rng.randint(1, 2))))
             if t["need_facility"] and all_f and rng.random() < 0.15:
                 t["fixed_facilities"] = sorted(rng.sample(all_f, min(len(all_f), rng.randint(1, 2))))
+    if p["fixed_lists"]:
+        for t in tasks:
+            if not t["auto"] and rng.random() < 0.02:
+                t["fixed_workers"] = []          # legal: nobody may be allocated
+    task_order = None
+    if rng.random() < 0.4:
+        task_order = list(range(n))
+        rng.shuffle(task_order)           # workflow.task_list need not be in topological order
+    for tm in teams:
+        if rng.random() < 0.12:
+            tm["ctor_targets"] = True
     absence = []
     if p["proj_absence"] and rng.random() < 0.4:
         absence = _absence(rng, horizon=16, maxn=4)
@@ -185,7 +196,7 @@ def gen_random(rng, prof=None):
             absence = sorted(set(absence) | {0})
     sim = dict(rule=rng.randrange(0, 9), absence=absence, auto_flag=rng.random() < 0.5,
                max_time=p["max_time"])
-    return dict(tasks=tasks, comps=comps, wps=wps, teams=teams, sim=sim)
+    return dict(tasks=tasks, comps=comps, wps=wps, teams=teams, sim=sim, task_order=task_order)
 
 
 # ---------------------------------------------------------------------------------------
